@@ -342,9 +342,16 @@ class Documentable:
                 # The local name was not found.
                 # If we're looking at a class, we try our luck with the inherited members
                 if isinstance(obj, Class):
-                    inherited = obj.find(p)
-                    if inherited: 
-                        full_name = inherited.fullName()
+                    # The first class of the MRO that binds the name decides, like Python's
+                    # attribute lookup: by a definition, or by an import in its body.
+                    for base in obj.mro():
+                        inherited = base.contents.get(p)
+                        if inherited is not None:
+                            full_name = inherited.fullName()
+                            break
+                        if p in base._localNameToFullName_map:
+                            full_name = base._localNameToFullName_map[p]
+                            break
                 if full_name == p:
                     # We don't have a full name
                     # TODO: Instead of returning the input, _localNameToFullName()
